@@ -202,3 +202,12 @@ _p('C12', ['r_customs', 'r_restore'],
    'condition can suppress it; the loop walks the arena in creation order; emit_wasm puts `customs` back (R-RESTORE) so a '
    'second emit sees them; nothing reachable from gc::run mutates ModuleCustomSections.',
    not_decided='byte identity as written by wasm-encoder (trusted); custom sections implemented by users')
+
+_p('C13', ['r_names', 'r_pushpair'],
+   'Name section: per wasmparser::Name subsection the index is resolved through the parse-time space of that kind and stored on '
+   'the item of that collection (locals through get_local of the entry\'s function); per wasm-encoder subsection the entries '
+   'are (get_<kind>_index(item.id), item.name) over the collection of that kind, sorted by index, subsections in '
+   'wasm-encoder\'s order; R-DEFUSE: every index space a handler of Module::parse reads has been filled by then '
+   '(ranks from wasmparser\'s section order; the locals space is filled after the payload loop); R-PUSHPAIR: the spaces '
+   'themselves are filled in lock-step with the binary.',
+   not_decided='names of label/field/tag subsections (documented as dropped); which of two merged identical types keeps its name')
